@@ -312,17 +312,24 @@ def run(ctx, rep):
         t = strip(t) if t[0] == 'cast' and 'IntToFloat' in str(t[3] if len(t) > 3 else '') else t
         if is_const(t):
             v = const_f64(t)
-            return 'int' if v is not None and float(v).is_integer() else None
+            if v is None:
+                return None
+            if float(v).is_integer():
+                return 'int'
+            return 'dyad' if (float(v) * 1024.0).is_integer() else None     # 0.5, 0.25, ...: products and sums stay exact
         if t[0] == 'cast':
             return exact(t[2])
         if t[0] == 'bin' and t[1] in ('Add', 'Sub', 'Mul'):
-            return 'int' if exact(t[2]) == 'int' and exact(t[3]) == 'int' else None
+            a, b = exact(t[2]), exact(t[3])
+            if a in ('int', 'dyad') and b in ('int', 'dyad'):
+                return 'dyad' if 'dyad' in (a, b) else 'int'
+            return None
         if t[0] == 'bin' and t[1] == 'Div':
             return 'quot' if exact(t[2]) == 'int' and exact(t[3]) == 'int' else None
         if t[0] == 'un' and t[1] == 'Neg':
             return exact(t[2])
         if t[0] == 'app' and t[1] == 'floor' and len(t[2]) == 1:
-            return 'int' if exact(t[2][0]) in ('int', 'quot') else None
+            return 'int' if exact(t[2][0]) in ('int', 'dyad', 'quot') else None
         if t[0] in ('param', 'loopval', 'ite', 'field') or t[0] == 'app':
             return 'int'          # integer-valued leaves (years, months, day numbers, chrono getters)
         return None
@@ -332,7 +339,7 @@ def run(ctx, rep):
         for x in subterms(T_):
             if x and x[0] == 'app' and x[1] == 'floor' and len(x[2]) == 1:
                 n_floor += 1
-                if not is_const(x[2][0]) and exact(x[2][0]) not in ('int', 'quot'):
+                if not is_const(x[2][0]) and exact(x[2][0]) not in ('int', 'dyad', 'quot'):
                     inexact.append(x)
     rep.ob('R17.14', 'floor-arguments-exact', not inexact,
            f'{n_floor} floor operations, each of an exactly computed integer quotient' if not inexact else
